@@ -337,3 +337,228 @@ Proof.
   cbn [length app Z.of_nat] in E. rewrite E. cbn [obind omap].
   rewrite (shift_left_iloop amount limbs 0%nat 0). reflexivity.
 Qed.
+
+(* ---------- reverse loops: `for x in xs.iter_mut().rev()` = recursion over the reversed list ---------- *)
+Section RevLoop.
+  Variables T St : Type.
+  Variable inj : list Z -> St -> T.
+  Variable stepo : Z -> St -> outcome (Z * St).  (* what the body does to element x (may panic) *)
+  Variable P : St -> Prop.
+  Variable Q : Z -> Prop.
+  Variable body : Z -> T -> outcome T.
+
+  Fixpoint rloop (l : list Z) (s : St) : outcome (list Z * St) :=
+    match l with
+    | [] => Val ([], s)
+    | x :: t => do rs <- stepo x s ; do p <- rloop t (snd rs) ; Val (fst rs :: fst p, snd p)
+    end.
+
+  Hypothesis Hbody : forall pre x post s, P s -> Q x ->
+    body (Z.of_nat (length pre)) (inj (pre ++ x :: post) s)
+    = (do rs <- stepo x s ; Val (inj (pre ++ fst rs :: post) (snd rs)))
+    /\ (forall r s', stepo x s = Val (r, s') -> P s').
+
+  Lemma idx_loop_rev l : forall post s, P s -> Forall Q l ->
+    for_down (length l) (inj (l ++ post) s) body
+    = (do p <- rloop (rev l) s ; Val (inj (rev (fst p) ++ post) (snd p))).
+  Proof.
+    induction l as [|x l IH] using rev_ind; intros post s Hs Hq.
+    - reflexivity.
+    - apply Forall_app in Hq. destruct Hq as [Hq Hx]. inversion Hx as [|? ? Hx' _]; subst.
+      rewrite app_length. cbn [length]. rewrite Nat.add_1_r. cbn [for_down].
+      rewrite <- app_assoc. cbn [app].
+      destruct (Hbody l x post s Hs Hx') as [Eb Hp]. rewrite Eb.
+      rewrite rev_app_distr. cbn [rev app rloop].
+      destruct (stepo x s) as [[r s1]| | | |] eqn:Es; cbn [obind fst snd]; try reflexivity.
+      rewrite (IH (r :: post) s1 (Hp r s1 eq_refl) Hq).
+      destruct (rloop (rev l) s1) as [[rs s2]| | | |]; cbn [obind fst snd rev]; try reflexivity.
+      rewrite <- app_assoc. reflexivity.
+  Qed.
+End RevLoop.
+
+(* ---------- shift_right_small ---------- *)
+Definition shr_stepo (amount : Z) (x : Z) (ov : Z) : outcome (Z * Z) :=
+  Val (Z.lor (shr64 x amount) ov, shl64 (shl64 x 1) (63 - amount)).
+
+Lemma shift_right_rloop amount l : forall ov,
+  rloop Z (shr_stepo amount) l ov = Val (shift_right_small_loop l amount ov).
+Proof.
+  induction l as [|x l IH]; intros ov; [reflexivity|].
+  cbn [rloop shift_right_small_loop]. unfold shr_stepo at 1. cbn [obind fst snd]. rewrite IH.
+  cbn [obind]. destruct (shift_right_small_loop l amount (shl64 (shl64 x 1) (63 - amount))). reflexivity.
+Qed.
+
+Lemma g_shift_right_small_eq limbs amount :
+  0 <= amount ->
+  g_shift_right_small limbs amount
+  = omap (fun p => (snd p, fst p)) (shift_right_small limbs amount).
+Proof.
+  intros Ham. unfold g_shift_right_small, shift_right_small.
+  destruct (Z.ltb_spec amount 64) as [Hlt|Hge]; cbn [negb]; [|reflexivity].
+  unfold lenZ. rewrite Nat2Z.id.
+  pose proof (idx_loop_rev (Z * list Z) Z (fun l s => (s, l)) (shr_stepo amount) (fun _ => True)
+    (fun _ => True)
+    (fun i_limb t_8 => let '(overflow, limbs) := t_8 in
+       do t_1 <- idx limbs i_limb ; do t_2 <- chksh 64 amount ;
+       let value := (Z.lor ((shr64 t_1 t_2)) overflow) in
+       do t_3 <- idx limbs i_limb ; do t_4 <- chk64 (63 - amount) ; do t_5 <- chksh 64 t_4 ;
+       let overflow := (shl64 ((shl64 t_3 1)) t_5) in
+       let t_6 := value in do _ <- idx limbs i_limb ; let limbs := upd limbs i_limb t_6 in
+       Val (overflow, limbs))) as L.
+  pose proof (L ltac:(
+    intros pre x post s _ _; cbv beta iota; rewrite ?idx_app_mid; cbn [obind];
+    unfold chksh, chk64;
+    replace ((0 <=? amount) && (amount <? 64)) with true by lia; cbn [obind];
+    replace ((0 <=? 63 - amount) && (63 - amount <? B)) with true by (rewrite B_val; lia); cbn [obind];
+    replace ((0 <=? 63 - amount) && (63 - amount <? 64)) with true by lia; cbn [obind];
+    cbv beta iota; rewrite ?idx_app_mid; cbn [obind]; rewrite upd_app_mid; unfold shr_stepo; cbn [obind fst snd];
+    split; [reflexivity | intros; exact I])
+    limbs [] 0 I ltac:(apply Forall_forall; intros; exact I)) as E.
+  rewrite app_nil_r in E. cbv beta zeta in E |- *. rewrite E. rewrite shift_right_rloop. cbn [obind].
+  destruct (shift_right_small_loop (rev limbs) amount 0) as [r o]. cbn [fst snd omap obind].
+  rewrite app_nil_r. reflexivity.
+Qed.
+
+(* ---------- div_nx1_normalized / div_nx2_normalized (algorithms/div/small.rs) ---------- *)
+From RV.Model Require DivSmall.
+From RV.Proofs Require PfDivBase.
+
+Lemma div_2x1_mg10_range u d v q r : DivSmall.div_2x1_mg10 u d v = Val (q, r) -> inW q /\ inW r.
+Proof.
+  unfold DivSmall.div_2x1_mg10. destruct (d <? 2 ^ 63); [discriminate|].
+  destruct (negb (hi128 u <? d)); [discriminate|].
+  destruct (reciprocal_mg10 d) as [rv| | | |]; cbn [obind]; try discriminate.
+  destruct (negb (v =? rv)); [discriminate|]. unfold DivSmall.div_2x1_body.
+  destruct (BB <=? u + hi128 u * v); [discriminate|].
+  set (q1 := wrap (hi128 (u + hi128 u * v) + 1)).
+  set (r0 := wrap (lo128 u - wrap (q1 * d))).
+  destruct (lo128 (u + hi128 u * v) <? r0).
+  - destruct (d <=? wrap (r0 + d)); intros E; injection E as <- <-; split; apply PfDivBase.wrap_range.
+  - destruct (d <=? r0); intros E; injection E as <- <-; split; apply PfDivBase.wrap_range.
+Qed.
+
+Lemma wrap128_range' x : 0 <= wrap128 x < BB.
+Proof. unfold wrap128. apply Z.mod_pos_bound. reflexivity. Qed.
+
+Lemma div_3x2_mg10_range u21 u0 d v q r :
+  DivSmall.div_3x2_mg10 u21 u0 d v = Val (q, r) -> inW q /\ 0 <= r < BB.
+Proof.
+  unfold DivSmall.div_3x2_mg10. destruct (d <? 2 ^ 127); [discriminate|].
+  destruct (negb (u21 <? d)); [discriminate|].
+  destruct (reciprocal_2_mg10 d) as [rv| | | |]; cbn [obind]; try discriminate.
+  destruct (negb (v =? rv)); [discriminate|]. unfold DivSmall.div_3x2_body.
+  destruct (BB <=? hi128 u21 * v + u21); [discriminate|].
+  set (qq := hi128 u21 * v + u21).
+  set (r0 := wrap128 (wrap128 (join (wrap (lo128 u21 - wrap (hi128 qq * hi128 d))) u0 - lo128 d * hi128 qq) - d)).
+  destruct (lo128 qq <=? hi128 r0).
+  - destruct (d <=? wrap128 (r0 + d)); intros E; injection E as <- <-;
+      split; try apply PfDivBase.wrap_range; apply wrap128_range'.
+  - destruct (d <=? r0); intros E; injection E as <- <-;
+      split; try apply PfDivBase.wrap_range; apply wrap128_range'.
+Qed.
+
+Lemma reciprocal_mg10_inW d v : reciprocal_mg10 d = Val v -> inW v.
+Proof.
+  unfold reciprocal_mg10. destruct (d <? 2 ^ 63); [discriminate|].
+  intros E. injection E as <-. apply PfDivBase.wrap_range.
+Qed.
+
+Lemma reciprocal_2_mg10_inW d v : reciprocal_2_mg10 d = Val v -> inW v.
+Proof.
+  unfold reciprocal_2_mg10. destruct (d <? 2 ^ 127); [discriminate|].
+  destruct (reciprocal_mg10 (hi128 d)) as [v1| | | |] eqn:E1; cbn [obind]; try discriminate.
+  apply reciprocal_mg10_inW in E1. intros E. injection E as <-. unfold recip2_body.
+  repeat match goal with
+  | |- context [if ?c then _ else _] => destruct c
+  | |- inW (let '(_, _) := ?p in _) => destruct p
+  end; cbv beta iota; try apply PfDivBase.wrap_range; try exact E1.
+Qed.
+
+Definition nx1_stepo (d v : Z) (x r : Z) : outcome (Z * Z) :=
+  do qr <- DivSmall.div_2x1_mg10 (join r x) d v ; Val (fst qr, snd qr).
+Definition nx2_stepo (d v : Z) (x r : Z) : outcome (Z * Z) :=
+  do qr <- DivSmall.div_3x2_mg10 r x d v ; Val (fst qr, snd qr).
+
+Lemma nx1_rloop d v l : forall r, rloop Z (nx1_stepo d v) l r = DivSmall.nx1_norm_loop l d v r.
+Proof.
+  induction l as [|x l IH]; intros r; [reflexivity|].
+  cbn [rloop DivSmall.nx1_norm_loop]. unfold nx1_stepo at 1.
+  destruct (DivSmall.div_2x1_mg10 (join r x) d v) as [[q r1]| | | |]; cbn [obind fst snd]; try reflexivity.
+  rewrite IH. reflexivity.
+Qed.
+Lemma nx2_rloop d v l : forall r, rloop Z (nx2_stepo d v) l r = DivSmall.nx2_norm_loop l d v r.
+Proof.
+  induction l as [|x l IH]; intros r; [reflexivity|].
+  cbn [rloop DivSmall.nx2_norm_loop]. unfold nx2_stepo at 1.
+  destruct (DivSmall.div_3x2_mg10 r x d v) as [[q r1]| | | |]; cbn [obind fst snd]; try reflexivity.
+  rewrite IH. reflexivity.
+Qed.
+
+Lemma join_range r x : inW r -> inW x -> 0 <= join r x < BB.
+Proof. unfold inW, join. rewrite BB_sq. intros. nia. Qed.
+
+Lemma g_div_nx1_normalized_eq u d :
+  Forall inW u -> inW d ->
+  g_div_nx1_normalized u d = omap (fun p => (snd p, fst p)) (DivSmall.div_nx1_normalized u d).
+Proof.
+  intros Hu Hd. unfold g_div_nx1_normalized, DivSmall.div_nx1_normalized.
+  change 9223372036854775808 with (2 ^ 63).
+  destruct (Z.ltb_spec d (2 ^ 63)) as [H|H].
+  { destruct (Z.leb_spec (2 ^ 63) d); [lia | reflexivity]. }
+  destruct (Z.leb_spec (2 ^ 63) d); [|lia]. cbn [negb].
+  rewrite g_reciprocal_mg10_eq by exact Hd.
+  destruct (reciprocal_mg10 d) as [v| | | |] eqn:Ev; cbn [obind omap]; try reflexivity.
+  pose proof (reciprocal_mg10_inW d v Ev) as Hv.
+  unfold lenZ. rewrite Nat2Z.id.
+  pose proof (idx_loop_rev (list Z * Z) Z (fun l s => (l, s)) (nx1_stepo d v) inW inW
+    (fun i_u t_6 => let '(u, r) := t_6 in
+       do t_2 <- idx u i_u ; let n := (g_dw_join r t_2) in
+       do t_3 <- g_div_2x1_mg10 n d v ; let '(q, r0) := t_3 in
+       let t_4 := q in do _ <- idx u i_u ; let u := upd u i_u t_4 in
+       let r := r0 in Val (u, r))) as L.
+  pose proof (L ltac:(
+    intros pre x post s Hs Hx; cbv beta iota zeta; rewrite ?idx_app_mid; cbn [obind];
+    rewrite g_dw_join_eq by assumption;
+    rewrite g_div_2x1_mg10_eq by (try apply join_range; assumption);
+    unfold nx1_stepo;
+    destruct (DivSmall.div_2x1_mg10 (join s x) d v) as [[q r1]| | | |] eqn:E2; cbn [obind fst snd];
+    (split; [try reflexivity | intros r' s' E'; try discriminate]);
+    [ cbv beta iota; rewrite ?idx_app_mid; cbn [obind]; rewrite upd_app_mid; reflexivity
+    | injection E' as <- <-; apply (div_2x1_mg10_range _ _ _ _ _ E2) ])
+    u [] 0 ltac:(unfold inW; pose proof B_pos; lia) Hu) as E.
+  rewrite app_nil_r in E. cbv beta zeta in E |- *. rewrite E. rewrite nx1_rloop.
+  destruct (DivSmall.nx1_norm_loop (rev u) d v 0) as [[rs r]| | | |]; cbn [obind fst snd]; try reflexivity.
+  rewrite app_nil_r. reflexivity.
+Qed.
+
+Lemma g_div_nx2_normalized_eq u d :
+  Forall inW u -> 0 <= d < BB ->
+  g_div_nx2_normalized u d = omap (fun p => (snd p, fst p)) (DivSmall.div_nx2_normalized u d).
+Proof.
+  intros Hu Hd. unfold g_div_nx2_normalized, DivSmall.div_nx2_normalized.
+  change 170141183460469231731687303715884105728 with (2 ^ 127).
+  destruct (Z.ltb_spec d (2 ^ 127)) as [H|H].
+  { destruct (Z.leb_spec (2 ^ 127) d); [lia | reflexivity]. }
+  destruct (Z.leb_spec (2 ^ 127) d); [|lia]. cbn [negb].
+  rewrite g_reciprocal_2_mg10_eq by exact Hd.
+  destruct (reciprocal_2_mg10 d) as [v| | | |] eqn:Ev; cbn [obind omap]; try reflexivity.
+  pose proof (reciprocal_2_mg10_inW d v Ev) as Hv.
+  unfold lenZ. rewrite Nat2Z.id.
+  pose proof (idx_loop_rev (list Z * Z) Z (fun l s => (l, s)) (nx2_stepo d v) (fun r => 0 <= r < BB) inW
+    (fun i_u t_6 => let '(u, remainder) := t_6 in
+       do t_2 <- idx u i_u ; do t_3 <- g_div_3x2_mg10 remainder t_2 d v ; let '(q, r) := t_3 in
+       let t_4 := q in do _ <- idx u i_u ; let u := upd u i_u t_4 in
+       let remainder := r in Val (u, remainder))) as L.
+  pose proof (L ltac:(
+    intros pre x post s Hs Hx; cbv beta iota zeta; rewrite ?idx_app_mid; cbn [obind];
+    rewrite g_div_3x2_mg10_eq by assumption;
+    unfold nx2_stepo;
+    destruct (DivSmall.div_3x2_mg10 s x d v) as [[q r1]| | | |] eqn:E2; cbn [obind fst snd];
+    (split; [try reflexivity | intros r' s' E'; try discriminate]);
+    [ cbv beta iota; rewrite ?idx_app_mid; cbn [obind]; rewrite upd_app_mid; reflexivity
+    | injection E' as <- <-; apply (div_3x2_mg10_range _ _ _ _ _ _ E2) ])
+    u [] 0 ltac:(rewrite BB_val; lia) Hu) as E.
+  rewrite app_nil_r in E. cbv beta zeta in E |- *. rewrite E. rewrite nx2_rloop.
+  destruct (DivSmall.nx2_norm_loop (rev u) d v 0) as [[rs r]| | | |]; cbn [obind fst snd]; try reflexivity.
+  rewrite app_nil_r. reflexivity.
+Qed.
